@@ -87,10 +87,16 @@ def _unit(args):
     T = _T[ck]
     c = T["curve"]
     p, n = c["P"], c["N"]
-    g = _gen(ck, 0)
     pts, negs = c["pts"], c["negs"]
     fails, classes = [], set()
     cnt = 0
+    try:
+        g = _gen(ck, 0)
+    except MachineryError:
+        raise
+    except Exception as e:  # noqa: BLE001  building a Generator on a valid curve IS group arithmetic (raw_mul of the blinding factor)
+        return 1, [], [("C02|generator|construction|blind=0|raises=%s" % type(e).__name__,
+                        "curve p=%d: Generator(...) with blinding factor 0 raises %r" % (p, e), {"curve": ck, "op": "construct", "blind": 0})]
 
     def bad(key, what, detail):
         if len(fails) < 6:
@@ -170,7 +176,16 @@ def _unit(args):
         row = T["bgm"][idx]
         grow = T["mul"][2]
         for lift in (0, 1, 2):
-            gb = _gen(ck, idx, lift)
+            try:
+                gb = _gen(ck, idx, lift)
+            except MachineryError:
+                raise
+            except Exception as e:  # noqa: BLE001  the constructor multiplies G by the blinding factor: a failure is a wrong k*G
+                bad("C02|generator|construction|blind=k|raises=%s" % type(e).__name__,
+                    "curve p=%d: Generator(...) with blinding factor %d (entropy lift %d) raises %r" % (p, idx, lift, e),
+                    {"curve": ck, "op": "construct", "blind": idx, "lift": lift})
+                cnt += 1
+                continue
             cnt += 1
             if gb._blinding_factor != idx:
                 raise MachineryError("could not inject blinding factor %d (got %d)" % (idx, gb._blinding_factor))
